@@ -181,7 +181,34 @@ def count_qed(files):
     return n
 
 def print_assumptions(prop_module, names, rundir):
-    """Returns dict name -> list of axioms ([] = closed), or None on failure."""
+    """Returns dict name -> list of axioms ([] = closed), or None on failure.
+    The answer is a function of the compiled module (a .vo records the digests of everything it depends on), so it is
+    cached under work/ keyed by the SHA-1 of that .vo and the list of names: a run that rebuilt nothing re-uses it."""
+    vo = os.path.join(COQ, *prop_module.split(".")) + ".vo"
+    key = None
+    cache_file = os.path.join(ALTDIR, "pa_cache.json")
+    try:
+        h = hashlib.sha1(open(vo, "rb").read()).hexdigest()
+        key = "%s:%s:%s" % (prop_module, h, hashlib.sha1(" ".join(names).encode()).hexdigest()[:12])
+        with Lock("pa_cache"):
+            cache = json.load(open(cache_file)) if os.path.exists(cache_file) else {}
+        if key in cache:
+            return cache[key], "(cached for %s)" % key
+    except (OSError, ValueError):
+        key = None
+    res, out = _print_assumptions(prop_module, names, rundir)
+    if res is not None and key:
+        try:
+            with Lock("pa_cache"):
+                cache = json.load(open(cache_file)) if os.path.exists(cache_file) else {}
+                cache = {k: v for k, v in cache.items() if not k.startswith(prop_module + ":")}     # one entry per module
+                cache[key] = res
+                json.dump(cache, open(cache_file, "w"))
+        except (OSError, ValueError):
+            pass
+    return res, out
+
+def _print_assumptions(prop_module, names, rundir):
     os.makedirs(rundir, exist_ok=True)
     f = os.path.join(rundir, "assum_%s.v" % prop_module.replace(".", "_"))
     with open(f, "w") as fh:
